@@ -414,8 +414,60 @@ func init() {
 		"runtime.Gosched":      func(m *Machine, c *frame, fn *ssa.Function, a []value) value { m.preemptPoint(); return nil },
 		"runtime.GC":           func(m *Machine, c *frame, fn *ssa.Function, a []value) value { return nil },
 		// time
-		"time.Now":   func(m *Machine, c *frame, fn *ssa.Function, a []value) value { return zero(fn.Signature.Results().At(0).Type()) },
-		"time.Since": func(m *Machine, c *frame, fn *ssa.Function, a []value) value { return mkConst(64, 0) },
+		// a clock that does not advance: Now() is always the same non-zero instant (wall 0, ext = 1e9 "ns");
+		// Add / Sub / Until / comparisons are exact arithmetic on it; timers fire nondeterministically
+		"time.Now": func(m *Machine, c *frame, fn *ssa.Function, a []value) value {
+			t := zero(fn.Signature.Results().At(0).Type()).(structV)
+			t[1] = mkConst(64, timeNowExt)
+			return t
+		},
+		"time.Since": func(m *Machine, c *frame, fn *ssa.Function, a []value) value {
+			return tBin("bvsub", mkConst(64, timeNowExt), timeExt(m, a[0]))
+		},
+		"time.Until": func(m *Machine, c *frame, fn *ssa.Function, a []value) value {
+			return tBin("bvsub", timeExt(m, a[0]), mkConst(64, timeNowExt))
+		},
+		"(time.Time).Add": func(m *Machine, c *frame, fn *ssa.Function, a []value) value {
+			t := copyVal(a[0]).(structV)
+			t[1] = tBin("bvadd", timeExt(m, a[0]), m.asTerm(a[1]))
+			return t
+		},
+		"(time.Time).IsZero": func(m *Machine, c *frame, fn *ssa.Function, a []value) value {
+			t := a[0].(structV)
+			return tAnd(tEq(m.asTerm(t[0]), mkConst(64, 0)), tEq(m.asTerm(t[1]), mkConst(64, 0)))
+		},
+		"(time.Time).After": func(m *Machine, c *frame, fn *ssa.Function, a []value) value {
+			return tCmp("bvsgt", timeExt(m, a[0]), timeExt(m, a[1]))
+		},
+		"(time.Time).Before": func(m *Machine, c *frame, fn *ssa.Function, a []value) value {
+			return tCmp("bvslt", timeExt(m, a[0]), timeExt(m, a[1]))
+		},
+		"(time.Time).Equal": func(m *Machine, c *frame, fn *ssa.Function, a []value) value {
+			return tEq(timeExt(m, a[0]), timeExt(m, a[1]))
+		},
+		// time.AfterFunc: f runs in its own goroutine once the timer fires (at any time, or when nothing
+		// else can run) unless Stop came first
+		"time.AfterFunc": func(m *Machine, c *frame, fn *ssa.Function, a []value) value {
+			tt := fn.Signature.Results().At(0).Type().(*types.Pointer).Elem()
+			var cell value = zero(tt)
+			p := &cell
+			st := &afterFuncState{}
+			m.afterFuncs[p] = st
+			f := a[1]
+			elemT := tt.Underlying().(*types.Struct).Field(0).Type().Underlying().(*types.Chan).Elem()
+			m.spawn("time.AfterFunc", func() {
+				ch := m.makeChan(1, elemT)
+				ch.timer = true
+				ch.buf = append(ch.buf, zero(ch.elemT))
+				m.chanRecv(ch)
+				if st.stopped {
+					return
+				}
+				st.fired = true
+				m.call(nil, 0, f, nil)
+			})
+			return p
+		},
 		"time.Sleep": func(m *Machine, c *frame, fn *ssa.Function, a []value) value { m.preemptPoint(); return nil },
 		"time.After": func(m *Machine, c *frame, fn *ssa.Function, a []value) value {
 			ch := m.makeChan(1, fn.Signature.Results().At(0).Type().Underlying().(*types.Chan).Elem())
@@ -437,6 +489,13 @@ func init() {
 		},
 		"(*time.Timer).Stop": func(m *Machine, c *frame, fn *ssa.Function, a []value) value {
 			p := a[0].(*value)
+			if st := m.afterFuncs[p]; st != nil {
+				if st.fired || st.stopped {
+					return tFalse
+				}
+				st.stopped = true
+				return tTrue
+			}
 			ch, _ := (*p).(structV)[0].(*chanV)
 			if ch == nil {
 				return tFalse
@@ -462,7 +521,9 @@ func init() {
 			ch.buf = []value{zero(ch.elemT)}
 			return mkBool(was)
 		},
-		"(time.Time).Sub":          func(m *Machine, c *frame, fn *ssa.Function, a []value) value { return mkConst(64, 0) },
+		"(time.Time).Sub": func(m *Machine, c *frame, fn *ssa.Function, a []value) value {
+			return tBin("bvsub", timeExt(m, a[0]), timeExt(m, a[1]))
+		},
 		"(time.Duration).String":   func(m *Machine, c *frame, fn *ssa.Function, a []value) value { return mkStr("0s") },
 		"(time.Time).Second":       func(m *Machine, c *frame, fn *ssa.Function, a []value) value { return mkConst(64, 0) },
 		"(time.Time).Nanosecond":   func(m *Machine, c *frame, fn *ssa.Function, a []value) value { return mkConst(64, 0) },
@@ -1125,4 +1186,17 @@ func (m *Machine) syncMapOf(p *value) *mapV {
 		m.syncMaps[p] = mp
 	}
 	return mp
+}
+
+const timeNowExt = 1000000000
+
+type afterFuncState struct{ stopped, fired bool }
+
+// timeExt: the "ext" field of a time.Time value (nanoseconds on the engine's clock).
+func timeExt(m *Machine, v value) *Term {
+	t, ok := v.(structV)
+	if !ok || len(t) < 2 {
+		m.abort("time.Time value of unexpected shape %T", v)
+	}
+	return m.asTerm(t[1])
 }
